@@ -29,6 +29,7 @@ inductive V where
   | eref (i : Nat)                      -- element reference into `self`
   | range (a b : Nat)
   | elems (es : List Cols)              -- an iterator of owned values
+  | elemsBoom (es : List Cols) (k : Nat)  -- … that panics when asked for item number `k` (the rest is destroyed with it)
   | src (c : Cols)                      -- a borrowed container (`other`)
   | srcIter (c : Cols)                  -- `other.iter()`
   | sref (c : Cols) (i : Nat)           -- reference to row `i` of a borrowed container
@@ -92,6 +93,11 @@ def dropV (dr : Bool) : V → Ev
   | .opt (some e) => dropWhole dr e
   | .cont c => dropWhole dr c
   | _ => {}
+
+/-- destroy a list of owned values -/
+def dropCols (dr : Bool) : List Cols → Ev
+  | [] => {}
+  | e :: es => dropWhole dr e ++ dropCols dr es
 
 /-- apply the outcome of a method of the vector to the machine -/
 def afterSelf (m : Mach) (o : Model.Out) (k : Model.Out → V) : Res V :=
@@ -270,6 +276,11 @@ def exec (env : Env) : St → Mach → Res Unit
     (eval env it m).bind fun v m => match v with
       | .range a b => forRange (fun i m => (execList env body { m with locals := (x, .nat i) :: m.locals }).bind fun _ m =>
           .ok () { m with locals := m.locals.drop 1 }) a (b - a) m
+      | .elemsBoom es k =>
+        (forList (fun e m => (execList env body { m with locals := (x, .elem e) :: m.locals }).bind fun _ m =>
+          let v := (lookup x m.locals).getD .moved
+          .ok () { m with locals := m.locals.drop 1, ev := m.ev ++ dropV env.dr v }) (es.take k) m).bind fun _ m =>
+          if k < es.length then .panic { m with ev := m.ev ++ dropCols env.dr (es.drop k) } else .ok () m
       | .elems es => forList (fun e m => (execList env body { m with locals := (x, .elem e) :: m.locals }).bind fun _ m =>
           let v := (lookup x m.locals).getD .moved
           .ok () { m with locals := m.locals.drop 1, ev := m.ev ++ dropV env.dr v }) es m
